@@ -25,6 +25,9 @@ impl<V> BTreeMap<V> {
                 r matches Some(x) ==> *x == old(self)@[*k] && final(self)@ == old(self)@.insert(*k, *final(x)),
                 r is None ==> final(self)@ == old(self)@ { unimplemented!() }
     #[verifier::external_body]
+    pub fn insert(&mut self, k: TxId, v: V) -> (r: Option<V>)
+        ensures final(self)@ == old(self)@.insert(k, v) { unimplemented!() }
+    #[verifier::external_body]
     pub fn remove(&mut self, k: &TxId) -> (r: Option<V>)
         ensures final(self)@ == old(self)@.remove(*k), final(self).removed(*k) { unimplemented!() }
 }
@@ -47,7 +50,14 @@ impl<'a, V> Deref for Ref<'a, V> { type Target = V;
 impl<'a, V> RefMut<'a, V> { pub uninterp spec fn view(&self) -> V; pub uninterp spec fn key(&self) -> LocationAndType; }
 impl<'a, V> Deref for RefMut<'a, V> { type Target = V; #[verifier::external_body] fn deref(&self) -> (r: &V) ensures *r == self@ { unimplemented!() } }
 impl<'a, V> DerefMut for RefMut<'a, V> { #[verifier::external_body] fn deref_mut(&mut self) -> (r: &mut V) ensures *r == old(self)@, *final(r) == final(self)@, final(self).key() == old(self).key() { unimplemented!() } }
+#[verifier::external_body] pub struct MvEntry<'a> { p: core::marker::PhantomData<&'a u8> }
+impl<'a> MvEntry<'a> {
+    pub uninterp spec fn key(&self) -> LocationAndType;
+    /// DashMap `entry(k).or_default()`: a write guard on the (possibly fresh, empty) per-location map
+    #[verifier::external_body] pub fn or_default(self) -> (r: RefMut<'a, BTreeMap<MemoryEntry>>) ensures r.key() == self.key() { unimplemented!() }
+}
 impl MVMemory {
+    #[verifier::external_body] pub fn entry(&self, k: LocationAndType) -> (e: MvEntry<'_>) ensures e.key() == k { unimplemented!() }
     pub uninterp spec fn view(&self) -> Map<LocationAndType, BTreeMap<MemoryEntry>>;
     #[verifier::external_body]
     pub fn get(&self, k: &LocationAndType) -> (r: Option<Ref<'_, BTreeMap<MemoryEntry>>>)
